@@ -22,6 +22,7 @@ package round
 //@   pure
 //@ interface Session method N
 //@   pure
+//@   ensures result > 0 && result < 1000000
 //@ interface Session method Threshold
 //@   pure
 //@ interface Session method Group
@@ -59,3 +60,50 @@ package round
 
 //@ interface Content method RoundNumber
 //@   pure
+
+// Every message a round puts on its out channel is a message with content.
+//@ chanelem[C05] *Message := elem != nil && elem.Content != nil
+
+//@ pred helperok(h *Helper) := h != nil && h.hash != nil && h.hash.h != nil && h.info.Group != nil
+
+//@ guarded_by[C17] Helper.mtx: hash
+//@ lockinv[C17] Helper.mtx := self.hash != nil && self.hash.h != nil
+
+//@ func (*Helper).HashForID
+//@   nopanic[C05,C17]
+//@   requires h != nil && !excl(h.mtx)
+//@   ensures !excl(h.mtx) && result != nil && result.h != nil
+
+//@ func (*Helper).Hash
+//@   nopanic[C05,C17]
+//@   requires h != nil && !excl(h.mtx)
+//@   ensures !excl(h.mtx) && result != nil && result.h != nil
+
+//@ func (*Helper).UpdateHashState
+//@   nopanic[C05,C17]
+//@   requires h != nil && !excl(h.mtx) && hashable(value)
+//@   ensures !excl(h.mtx)
+
+//@ func (*Helper).BroadcastMessage
+//@   nopanic[C05]
+//@   requires h != nil && out != nil && broadcastContent != nil && !closed(out)
+//@   modifies nothing
+//@   allocates
+
+//@ func (*Helper).SendMessage
+//@   nopanic[C05]
+//@   requires h != nil && out != nil && content != nil && !closed(out)
+//@   modifies nothing
+//@   allocates
+
+//@ func (*Helper).ResultRound
+//@   nopanic[C05]
+//@   modifies nothing
+//@   allocates
+//@   ensures typeis(result, *Output) && result != nil
+
+//@ func (*Helper).AbortRound
+//@   nopanic[C05]
+//@   modifies nothing
+//@   allocates
+//@   ensures typeis(result, *Abort) && result != nil
